@@ -80,7 +80,12 @@ func (c *Ctx) ruleLabels() {
 				}
 				n++
 				call, ok := other.(*ssa.Call)
-				if n := ""; !ok || func() bool { n = c.calleeName(&call.Call); return n != "uc" && n != "strings.ToUpper" }() {
+				// the fold must be the library's (strings.ToUpper, possibly through the package's alias
+				// variable): a hand-written fold is not taken on trust
+				if !ok || func() bool {
+					cal := c.p.callee(&call.Call)
+					return cal == nil || c.p.inPkg(cal) || cal.String() != "strings.ToUpper"
+				}() {
 					problems = append(problems, c.p.instrPos(in)+": a label is compared with a keyword without upper-casing it first (labels must be honoured case-insensitively; folded stacks emit lower-case words)")
 				}
 			}
